@@ -231,7 +231,7 @@ def run(ctx):
     if ctx.anchor(R5, root, root in prog.bodies):
         n_cast = 0
         bad = []
-        for b in prog.group(root):
+        for b in cast_family(prog):
             ctx.functions_analysed.add(b.name)
             for bb, st in b.stmts():
                 rv = st.get('rv', {})
@@ -333,10 +333,26 @@ def run(ctx):
                 txt = ' '.join(str(s) for s in b.rec.get('promoted', []))
                 if 'not yet implemented' in txt or 'not implemented' in txt:
                     todo.append((b, c))
-    roots = sorted({b.root for b, _ in todo})
+    fam = {b.root for b in cast_family(prog)}
+    roots = sorted({(OPS + 'cast') if b.root in fam else b.root for b, _ in todo})
     for r in roots:
         ctx.ob(R4, f'todo·{short(r)}', r in KNOWN_TODO, f'unimplemented arm(s) in {r}: {KNOWN_TODO.get(r, "NEW")}', nontrivial=False)
     ctx.extra['todo_sites'] = roots
+
+
+def cast_family(prog):
+    """ArrayImpl::cast with the helpers of the same impl it delegates to (cast -> cast_inner): the kernels may live in either"""
+    root = OPS + 'cast'
+    out = list(prog.group(root))
+    seen = {root}
+    for g in list(out):
+        for c in g.calls:
+            for n in prog.callee_bodies(c):
+                r = prog.bodies[n].root
+                if r.startswith(OPS + 'cast') and r not in seen:
+                    seen.add(r)
+                    out += prog.group(r)
+    return out
 
 
 def short(n):
